@@ -279,4 +279,256 @@ theorem rz_copies_complete :
 
 example : (applyRZ true true (⟨[1, 2], [7, 8]⟩ : Edges Nat) ⟨[1, 2], [7, 8]⟩).last = [1, 2] := by decide
 
+
+/-! ### X-point slots
+`xPointsAtStart / xPointsAtEnd` of the equilibrium regions (tables `xslot*` of Model/Topology.lean, compared with the real
+`describeSingleNull / describeDoubleNull` objects on every run) against the connection tables `upper*`. -/
+
+/-- the topologies with a region table -/
+inductive Cfg | sn | cdn | ldn | udn | core
+  deriving DecidableEq, Repr
+
+/-- (at start, at end) X-point slot of region r -/
+def Cfg.slot : Cfg → Nat → XSlot × XSlot
+  | .sn => xslotSN | .cdn => xslotCDN | .ldn => xslotLDN | .udn => xslotUDN | .core => xslotCore
+
+/-- upper neighbour of (region r, radial segment s) -/
+def Cfg.upper : Cfg → Nat → Nat → Option Nat
+  | .sn => upperSN | .cdn => upperCDN | .ldn => upperLDN | .udn => upperUDN | .core => upperCore
+
+/-- number of radial segments -/
+def Cfg.nseg : Cfg → Nat
+  | .sn => 2 | .cdn => 2 | .ldn => 3 | .udn => 3 | .core => 1
+
+/-- number of regions -/
+def Cfg.nreg : Cfg → Nat
+  | .sn => 3 | .cdn => 6 | .ldn => 6 | .udn => 6 | .core => 1
+
+/-- the X-point numbers of `equilibrium.x_points` -/
+def Cfg.xpoints : Cfg → List Nat
+  | .sn => [0] | .cdn => [0, 1] | .ldn => [0, 1] | .udn => [0, 1] | .core => []
+
+/-- the radial boundary on which X-point w lies: the primary separatrix is boundary 1; the secondary X-point of a
+disconnected double null lies on boundary 2 -/
+def Cfg.xbound : Cfg → Nat → Nat
+  | .ldn, w => w + 1 | .udn, w => w + 1 | _, _ => 1
+
+/-- outside the region range the tables are empty -/
+theorem xslot_none_of_ge (c : Cfg) (r : Nat) (h : c.nreg ≤ r) : c.slot r = (none, none) := by
+  cases c <;> simp only [Cfg.nreg] at h <;>
+    simp only [Cfg.slot, xslotSN, xslotCDN, xslotLDN, xslotUDN, xslotCore] <;> split <;> first | rfl | omega
+
+theorem upper_none_of_ge (c : Cfg) (r s : Nat) (h : c.nreg ≤ r) : c.upper r s = none := by
+  cases c <;> simp only [Cfg.nreg] at h <;>
+    simp only [Cfg.upper, upperSN, upperCDN, upperLDN, upperUDN, upperCore] <;> split <;> first | rfl | omega
+
+theorem xslot_start_lt (c : Cfg) (r : Nat) (p : Nat × Nat) (h : (c.slot r).1 = some p) : r < c.nreg := by
+  rcases Nat.lt_or_ge r c.nreg with hr | hr
+  · exact hr
+  · rw [xslot_none_of_ge c r hr] at h; cases h
+
+theorem xslot_end_lt (c : Cfg) (r : Nat) (p : Nat × Nat) (h : (c.slot r).2 = some p) : r < c.nreg := by
+  rcases Nat.lt_or_ge r c.nreg with hr | hr
+  · exact hr
+  · rw [xslot_none_of_ge c r hr] at h; cases h
+
+/-- **1, forward**: an X-point at the end of a region sits on an interior radial boundary, exactly where the region's upper
+connection changes its target -/
+theorem xslot_end_at_connection_change (c : Cfg) (r k w : Nat) (h : (c.slot r).2 = some (k, w)) :
+    1 ≤ k ∧ k < c.nseg ∧ c.upper r (k - 1) ≠ c.upper r k := by
+  have hr := xslot_end_lt c r _ h
+  cases c <;> simp only [Cfg.nreg] at hr <;> interval_cases r <;>
+    simp [Cfg.slot, xslotSN, xslotCDN, xslotLDN, xslotUDN, xslotCore] at h <;>
+    obtain ⟨rfl, rfl⟩ := h <;> decide
+
+/-- **1, converse** (no entry breaks it, and the hypothesis "both `some`" is not needed: inside the segment range a region's
+upper connections are all present or all absent): wherever the upper connection changes target between the segments
+`k-1` and `k`, the end slot holds an X-point at boundary `k` -/
+theorem xslot_end_of_connection_change (c : Cfg) (r k : Nat) (hk1 : 1 ≤ k) (hk : k < c.nseg)
+    (hne : c.upper r (k - 1) ≠ c.upper r k) : ∃ w, (c.slot r).2 = some (k, w) := by
+  have hr : r < c.nreg := by
+    rcases Nat.lt_or_ge r c.nreg with hr | hr
+    · exact hr
+    · exact absurd ((upper_none_of_ge c r _ hr).trans (upper_none_of_ge c r _ hr).symm) hne
+  cases c <;> simp only [Cfg.nreg] at hr <;> simp only [Cfg.nseg] at hk <;> interval_cases r <;> interval_cases k <;>
+    first | exact ⟨_, rfl⟩ | exact absurd rfl hne
+
+/-- both directions together -/
+theorem xslot_end_iff_connection_change (c : Cfg) (r k : Nat) (hk1 : 1 ≤ k) (hk : k < c.nseg) :
+    (∃ w, (c.slot r).2 = some (k, w)) ↔ c.upper r (k - 1) ≠ c.upper r k :=
+  ⟨fun ⟨w, h⟩ => (xslot_end_at_connection_change c r k w h).2.2, xslot_end_of_connection_change c r k hk1 hk⟩
+
+/-- **2** (strongest form: no adjacency side condition `s = k-1 ∨ s = k` is needed, the equality holds for every segment):
+the X-point slot at the end of a region is the slot at the start of each of its upper neighbours -/
+theorem xslot_continuous_across_cut (c : Cfg) (r s q : Nat) (h : c.upper r s = some q) :
+    (c.slot r).2 = (c.slot q).1 := by
+  have hr : r < c.nreg := by
+    rcases Nat.lt_or_ge r c.nreg with hr | hr
+    · exact hr
+    · rw [upper_none_of_ge c r s hr] at h; cases h
+  have hs : s < 3 := by
+    rcases Nat.lt_or_ge s 3 with hs | hs
+    · exact hs
+    · exfalso
+      cases c <;> simp only [Cfg.upper, upperSN, upperCDN, upperLDN, upperUDN, upperCore] at h <;> split at h <;>
+        first | omega | cases h
+  cases c <;> simp only [Cfg.nreg] at hr <;> interval_cases r <;> interval_cases s <;>
+    first | (injection h with h; subst h; rfl) | cases h
+
+/-- in the iff form asked for: r has an end X-point iff q has a start X-point, and then they are the same `(k, w)` -/
+theorem xslot_continuous_across_cut_iff (c : Cfg) (r s q : Nat) (h : c.upper r s = some q) (p : Nat × Nat) :
+    (c.slot r).2 = some p ↔ (c.slot q).1 = some p := by
+  rw [xslot_continuous_across_cut c r s q h]
+
+/-- with an X-point (every table but the periodic core): a region has an upper neighbour exactly when it ends at an X-point,
+and regions without one end on a target -/
+theorem xslot_end_none_iff_target (c : Cfg) (hc : c ≠ .core) (r s : Nat) (hr : r < c.nreg) (hs : s < c.nseg) :
+    (c.slot r).2 = none ↔ c.upper r s = none := by
+  cases c <;> first | exact absurd rfl hc | skip
+  all_goals simp only [Cfg.nreg] at hr; simp only [Cfg.nseg] at hs; interval_cases r <;> interval_cases s <;> decide
+
+/-- the eight cells (region, at end?, radial segment) meeting at X-point w -/
+def xcells (c : Cfg) (w : Nat) : List (Nat × Bool × Nat) :=
+  (List.range c.nreg).flatMap fun r =>
+    (match (c.slot r).1 with
+      | some (k, w') => if w' = w then [(r, false, k - 1), (r, false, k)] else []
+      | none => []) ++
+    (match (c.slot r).2 with
+      | some (k, w') => if w' = w then [(r, true, k - 1), (r, true, k)] else []
+      | none => [])
+
+/-- regions that start / end at X-point w -/
+def xstarts (c : Cfg) (w : Nat) : List Nat :=
+  (List.range c.nreg).filter fun r => (c.slot r).1.map Prod.snd = some w
+def xends (c : Cfg) (w : Nat) : List Nat :=
+  (List.range c.nreg).filter fun r => (c.slot r).2.map Prod.snd = some w
+
+/-- **3**: every X-point of the topology closes exactly two region starts and two region ends; with the two radial sides of
+each that is eight distinct cells, all inside the segment range -/
+theorem xslot_eight_cells (c : Cfg) (w : Nat) (hw : w ∈ c.xpoints) :
+    (xstarts c w).length = 2 ∧ (xends c w).length = 2 ∧ (xcells c w).length = 8 ∧ (xcells c w).Nodup ∧
+      ∀ x ∈ xcells c w, x.2.2 < c.nseg := by
+  cases c <;> simp only [Cfg.xpoints, List.mem_cons, List.not_mem_nil, or_false] at hw <;>
+    first | exact hw.elim | (rcases hw with rfl | rfl <;> decide)
+
+/-- and only those X-point numbers occur in a table -/
+theorem xslot_number_mem (c : Cfg) (r k w : Nat) (h : (c.slot r).1 = some (k, w) ∨ (c.slot r).2 = some (k, w)) :
+    w ∈ c.xpoints := by
+  have hr : r < c.nreg := h.elim (xslot_start_lt c r _) (xslot_end_lt c r _)
+  cases c <;> simp only [Cfg.nreg] at hr <;> interval_cases r <;>
+    simp [Cfg.slot, xslotSN, xslotCDN, xslotLDN, xslotUDN, xslotCore] at h <;>
+    (try simp [Cfg.xpoints]) <;> omega
+
+/-- the explicit lists -/
+example : xstarts .sn 0 = [1, 2] ∧ xends .sn 0 = [0, 1] := by decide
+example : xstarts .ldn 0 = [1, 5] ∧ xends .ldn 0 = [0, 4] ∧ xstarts .ldn 1 = [2, 4] ∧ xends .ldn 1 = [1, 3] := by decide
+example : xstarts .udn 0 = [2, 4] ∧ xends .udn 0 = [1, 3] ∧ xstarts .udn 1 = [1, 5] ∧ xends .udn 1 = [0, 4] := by decide
+
+/-- **4a**: the primary X-point (w = 0) always sits on boundary 1; the secondary one (w = 1) on boundary 2 in the disconnected
+double nulls and on boundary 1 in the connected one -/
+theorem xslot_on_separatrix (c : Cfg) (r k w : Nat) (h : (c.slot r).1 = some (k, w) ∨ (c.slot r).2 = some (k, w)) :
+    k = c.xbound w := by
+  have hr : r < c.nreg := h.elim (xslot_start_lt c r _) (xslot_end_lt c r _)
+  cases c <;> simp only [Cfg.nreg] at hr <;> interval_cases r <;>
+    simp [Cfg.slot, xslotSN, xslotCDN, xslotLDN, xslotUDN, xslotCore] at h <;>
+    simp only [Cfg.xbound] <;> omega
+
+theorem xslot_on_separatrix_primary (c : Cfg) (r k : Nat) (h : (c.slot r).1 = some (k, 0) ∨ (c.slot r).2 = some (k, 0)) :
+    k = 1 := by
+  have := xslot_on_separatrix c r k 0 h
+  cases c <;> simpa [Cfg.xbound] using this
+
+theorem xslot_on_separatrix_secondary (c : Cfg) (r k : Nat) (h : (c.slot r).1 = some (k, 1) ∨ (c.slot r).2 = some (k, 1)) :
+    k = if c = .ldn ∨ c = .udn then 2 else 1 := by
+  have := xslot_on_separatrix c r k 1 h
+  cases c <;> simpa [Cfg.xbound] using this
+
+/-- **4b**, lower disconnected double null (`xs = [a, b, d]`): the x-index `sumTo xs k` of the slot's boundary is `ixseps1` for the
+primary (lower) X-point and `ixseps2` for the secondary (upper) one -/
+theorem xslot_ixseps_LDN (a b d sep r k w : Nat) (h : (xslotLDN r).1 = some (k, w) ∨ (xslotLDN r).2 = some (k, w))
+    (i1 i2 : Int) (he : encodeX [a, b, d] sep .lower = some (i1, i2)) :
+    ((sumTo [a, b, d] k : Nat) : Int) = (if w = 0 then i1 else i2) ∧ i1 = a ∧ i2 = ((a + b : Nat) : Int) := by
+  have hk := xslot_on_separatrix .ldn r k w h
+  have hw := xslot_number_mem .ldn r k w h
+  simp only [Cfg.xbound] at hk
+  simp only [Cfg.xpoints, List.mem_cons, List.not_mem_nil, or_false] at hw
+  simp only [encodeX, Option.some.injEq, Prod.mk.injEq] at he
+  obtain ⟨rfl, rfl⟩ := he
+  rcases hw with rfl | rfl <;> subst hk <;> simp [sumTo]
+
+/-- **4b**, upper disconnected double null: the primary X-point is the upper one, so the x-index of its boundary (boundary 1)
+is `ixseps2`, and that of the secondary (lower) X-point (boundary 2) is `ixseps1` -/
+theorem xslot_ixseps_UDN (a b d sep r k w : Nat) (h : (xslotUDN r).1 = some (k, w) ∨ (xslotUDN r).2 = some (k, w))
+    (i1 i2 : Int) (he : encodeX [a, b, d] sep .upper = some (i1, i2)) :
+    ((sumTo [a, b, d] k : Nat) : Int) = (if w = 0 then i2 else i1) ∧ i1 = ((a + b : Nat) : Int) ∧ i2 = a := by
+  have hk := xslot_on_separatrix .udn r k w h
+  have hw := xslot_number_mem .udn r k w h
+  simp only [Cfg.xbound] at hk
+  simp only [Cfg.xpoints, List.mem_cons, List.not_mem_nil, or_false] at hw
+  simp only [encodeX, Option.some.injEq, Prod.mk.injEq] at he
+  obtain ⟨rfl, rfl⟩ := he
+  rcases hw with rfl | rfl <;> subst hk <;> simp [sumTo]
+
+/-- **4b**, single null and connected double null (two radial segments `xs = [a, b]`, any `DNType`): every X-point sits on the
+boundary whose x-index is `ixseps1`; `encodeX` gives `ixseps2 = nx` (`encode` replaces it by `ixseps1` for the connected
+double null, see `encode_CDN`) -/
+theorem xslot_ixseps_two_segments (c : Cfg) (hc : c = .sn ∨ c = .cdn) (a b sep : Nat) (dn : DNType) (r k w : Nat)
+    (h : (c.slot r).1 = some (k, w) ∨ (c.slot r).2 = some (k, w))
+    (i1 i2 : Int) (he : encodeX [a, b] sep dn = some (i1, i2)) :
+    ((sumTo [a, b] k : Nat) : Int) = i1 ∧ i2 = ((a + b : Nat) : Int) := by
+  have hk := xslot_on_separatrix c r k w h
+  simp only [encodeX, Option.some.injEq, Prod.mk.injEq] at he
+  obtain ⟨rfl, rfl⟩ := he
+  rcases hc with rfl | rfl <;> simp only [Cfg.xbound] at hk <;> subst hk <;> simp [sumTo]
+
+/-- the disconnected tables have no `encodeX` with the other `DNType`s, and three segments are required -/
+example (a b d sep : Nat) : encodeX [a, b, d] sep .connected = none ∧ encodeX [a, b, d] sep .none = none := ⟨rfl, rfl⟩
+example : encodeX [3, 2, 4] 0 .lower = some (3, 5) ∧ encodeX [3, 2, 4] 0 .upper = some (5, 3) := by decide
+
+/-- **5**: the region involution inner lower leg ↔ inner upper leg, outer upper leg ↔ outer lower leg (cores fixed) -/
+def flipUD : Nat → Nat
+  | 0 => 2 | 2 => 0 | 3 => 5 | 5 => 3 | r => r
+
+theorem flipUD_involutive (r : Nat) : flipUD (flipUD r) = r := by
+  match r with
+  | 0 => rfl | 1 => rfl | 2 => rfl | 3 => rfl | 4 => rfl | 5 => rfl
+  | n + 6 => rfl
+
+/-- the upper disconnected table is the lower disconnected one mirrored up-down: regions exchanged by `flipUD` and, because the
+y direction reverses, start and end exchanged; boundary and X-point number are kept (primary stays primary) -/
+theorem xslot_ldn_udn_swap (r : Nat) : xslotUDN (flipUD r) = (xslotLDN r).swap := by
+  match r with
+  | 0 => rfl | 1 => rfl | 2 => rfl | 3 => rfl | 4 => rfl | 5 => rfl
+  | n + 6 => rfl
+
+/-- the same mirror on the connection tables: q is above r in the lower disconnected double null iff `flipUD r` is above
+`flipUD q` in the upper disconnected one -/
+theorem upper_ldn_udn_swap (r q s : Nat) (hr : r < 6) (hq : q < 6) :
+    upperLDN r s = some q ↔ upperUDN (flipUD q) s = some (flipUD r) := by
+  rcases Nat.lt_or_ge s 3 with hs | hs
+  · interval_cases r <;> interval_cases q <;> interval_cases s <;> decide
+  · have h1 : ∀ r, upperLDN r s = none := by
+      intro r; unfold upperLDN; split <;> first | rfl | omega
+    have h2 : ∀ r, upperUDN r s = none := by
+      intro r; unfold upperUDN; split <;> first | rfl | omega
+    simp [h1, h2]
+
+/-- the connected double null is its own mirror image with the two X-point numbers exchanged -/
+theorem xslot_cdn_self_mirror (r : Nat) :
+    xslotCDN (flipUD r) = ((xslotCDN r).swap).map (Option.map fun p => (p.1, 1 - p.2)) (Option.map fun p => (p.1, 1 - p.2)) := by
+  match r with
+  | 0 => rfl | 1 => rfl | 2 => rfl | 3 => rfl | 4 => rfl | 5 => rfl
+  | n + 6 => rfl
+
+/-! non-vacuity: one entry per table -/
+example : xslotSN 1 = (some (1, 0), some (1, 0)) := rfl
+example : xslotCDN 4 = (some (1, 1), some (1, 0)) := rfl
+example : xslotLDN 1 = (some (1, 0), some (2, 1)) := rfl
+example : xslotUDN 1 = (some (2, 1), some (1, 0)) := rfl
+example : xslotCore 0 = (none, none) := rfl
+example : xcells .ldn 1 =
+    [(1, true, 1), (1, true, 2), (2, false, 1), (2, false, 2), (3, true, 1), (3, true, 2), (4, false, 1), (4, false, 2)] := by decide
+example : (Cfg.ldn.slot 1).2 = some (2, 1) ∧ upperLDN 1 1 = some 4 ∧ upperLDN 1 2 = some 2 ∧ (Cfg.ldn.slot 4).1 = some (2, 1) ∧
+    (Cfg.ldn.slot 2).1 = some (2, 1) := by decide
+
 end HypnoModel.Props.C08
